@@ -161,9 +161,6 @@ func (idx *WorkspaceIndex) addFileIndex(path string, fi *FileIndex) {
 	for _, date := range fi.Dates {
 		idx.dateCounts[date]++
 	}
-	for payee, postings := range fi.PayeeTemplates {
-		idx.payeeTemplates[payee] = postings
-	}
 	idx.refreshDerived()
 }
 
@@ -195,9 +192,6 @@ func (idx *WorkspaceIndex) removeFileIndex(path string, fi *FileIndex) {
 	}
 	for _, date := range fi.Dates {
 		idx.decrementBy(idx.dateCounts, date, 1)
-	}
-	for payee := range fi.PayeeTemplates {
-		delete(idx.payeeTemplates, payee)
 	}
 	idx.refreshDerived()
 }
@@ -231,6 +225,26 @@ func (idx *WorkspaceIndex) refreshDerived() {
 	idx.tags = sortedKeys(idx.tagCounts)
 	idx.tagValues = buildTagValues(idx.tagValueCounts)
 	idx.dates = sortedKeys(idx.dateCounts)
+	idx.payeeTemplates = buildPayeeTemplates(idx.fileIndexes)
+}
+
+// buildPayeeTemplates merges the posting templates of all indexed files. A payee used in
+// several files keeps a template as long as one of them provides it; when several do, the
+// file whose path sorts last wins, whatever order the files were indexed or updated in.
+func buildPayeeTemplates(files map[string]*FileIndex) map[string][]analyzer.PostingTemplate {
+	paths := make([]string, 0, len(files))
+	for path := range files {
+		paths = append(paths, path)
+	}
+	sort.Strings(paths)
+
+	templates := make(map[string][]analyzer.PostingTemplate)
+	for _, path := range paths {
+		for payee, postings := range files[path].PayeeTemplates {
+			templates[payee] = postings
+		}
+	}
+	return templates
 }
 
 func buildTagValues(counts map[string]map[string]int) map[string][]string {
